@@ -1,10 +1,11 @@
 import RzilVerif.Model.DriverText
 import RzilVerif.Lemmas.LayoutPerm
+import RzilVerif.Lemmas.LayoutDup
 /-
   Driver request that relates the two output layouts of one behaviour (C16):
 
     (layout-rel "<READ_STATEMENTS text>" "<EXEC_CLASSES text>")
-      ↦ (layout-rel (wf <0|1>) (hoist-equal <0|1>))
+      ↦ (layout-rel (wf <0|1>) (hoist-equal <0|1>) (wf-dup <0|1>) (hoist-equal-dup <0|1>))
       ↦ (layout-rel (error unparsed-rs)) / (layout-rel (error unparsed-ec))   when a text does not parse
 
   `wf`          : `LayoutWF` (Lemmas/LayoutPerm.lean) of the READ_STATEMENTS items — the hypothesis of
@@ -12,6 +13,10 @@ import RzilVerif.Lemmas.LayoutPerm
   `hoist-equal` : the inlined declarations (type, name, right-hand side; in order) and the returned term of
                   `hoistPures rsItems` are those of the EXEC_CLASSES items (comments, operand declarations ignored).
   When both are 1, `hoist_denote` gives `denoteIL` equality of the two texts without comparing denotations.
+  `wf-dup`          : `LayoutWF` of the READ_STATEMENTS items after erasing `DUP` in every right-hand side and returned
+                      term (`Item.eraseDup`, Lemmas/LayoutDup.lean; equal to `wf` by `layoutWF_eraseDup`);
+  `hoist-equal-dup` : `hoistEqualD` = `hoist-equal` of the `DUP`-erased item lists.
+  When these two are 1, `layout_rel_sound_dup` (Props/C16.lean) gives `denoteIL` equality of the two texts.
 -/
 namespace Rzil
 open Sexp
@@ -24,7 +29,9 @@ def handleLayout : List Sexp → Option Sexp
     | some rs, some ec =>
       some (.list [.atom "layout-rel",
         .list [.atom "wf", ofBool (LayoutWF rs.items)],
-        .list [.atom "hoist-equal", ofBool (hoistEqual rs.items ec.items)]])
+        .list [.atom "hoist-equal", ofBool (hoistEqual rs.items ec.items)],
+        .list [.atom "wf-dup", ofBool (LayoutWF (rs.items.map Item.eraseDup))],
+        .list [.atom "hoist-equal-dup", ofBool (hoistEqualD rs.items ec.items)]])
   | _ => none
 
 end Rzil
